@@ -134,6 +134,19 @@ CHECKS = {
    note="Trusted: TLC, JSON bridge; class sets come from CharacterCategory (C17). Candidates compared as sets. Regex provider only for [set]+. A genuine defect found here was repaired (known_findings.json, fixed).",
    technique="TLA+ spec Oov + TLC; S->I replay on real InputBuffer/providers; I->S trace validation via hooks H2/H4 (Trace_Oov)",
    design="4 C13"),
+ "C15": dict(
+   category="model_checking",
+   text="Numeral.tla defines what a written numeral means structurally and independently of the parser: split at large units, then at small units, coefficients with thousands "
+        "separators and fraction, every digit placed at its decimal position (WellFormed / Decimal; AddValue = the additive reading, the only value a joined string may take; the named "
+        "malformed groupings). NumericParser.tla transcribes the parser's three string accumulators. TLC checks for EVERY string up to 5 (thorough 6) characters over "
+        "{0 1 5 〇 二 十 百 千 万 億 兆 , .} (402k / 5.2M strings): well-formed => accepted with its decimal value; accepted => additive reading of the string with stray separators "
+        "ignored; malformed without such a reading => refused. Every enumerated string up to 4 (5) is run through the real parser (hook H5) and, sampled (thorough: all), through a real "
+        "tokenizer with a numeral dictionary; numerals generated from value structures (any magnitude, mixed Arabic/kanji, separators, fractions on units) and one-edit near misses are "
+        "trace-validated at parser and token level; a second, non-gating pass checks that the transcription steps through exactly the real parser's states.",
+   note="Trusted: TLC, JSON bridge. `Wrong value` is rendered as `differs from the additive reading with stray separators ignored`; strings the parser refuses beyond the "
+        "well-formed grammar are free. Agreement of the transcription with the real parser's internal states is reported as drift, never as a violation.",
+   technique="TLA+ specs Numeral (structural oracle) + NumericParser (transcription) + TLC over all short strings; S->I replay via hook H5 and a real tokenizer; I->S trace validation (Trace_Numeral)",
+   design="4 C15"),
 }
 
 NOT_YET = "no check registered yet in this revision (work in progress; see DESIGN.md section 8 build order)"
